@@ -72,14 +72,16 @@ def explore(ad, max_depth=8, max_nodes=200000, audit_rng=None, audit_pairs=25):
                 ad.apply(w0, x)
             acts = ad.alphabet(w0)
             for a in acts:
-                w1, w2 = ad.make(), ad.make()
+                w1 = ad.make()                       # one object at a time: adapters may share a virtual clock
                 for x in nodes[kept]["path"]:
                     ad.apply(w1, x)
+                o1, k1 = ad.apply(w1, a), key(w1)
+                w2 = ad.make()
                 for x in path:
                     ad.apply(w2, x)
-                o1, o2 = ad.apply(w1, a), ad.apply(w2, a)
-                if canon(o1) != canon(o2) or key(w1) != key(w2):
-                    audit_fail = {"kept": nodes[kept]["path"], "merged": path, "act": a, "obs": [o1, o2]}
+                o2, k2 = ad.apply(w2, a), key(w2)
+                if canon(o1) != canon(o2) or k1 != k2:
+                    audit_fail = {"kept": nodes[kept]["path"], "merged": path, "act": a, "obs": [o1, o2], "keys": [k1, k2]}
                     break
             if audit_fail:
                 break
